@@ -2,7 +2,7 @@
 CONSTANTS
   NSet = {0, 1, 2, 3}
   MSSet = {0, 1, 3, 4, 5}
-  CDSet = {0, 3, 7}
+  CDSet = {0, 7}
   IVSet = {1, 2, 3}
   Jit = {0, 1}
   Lat = {0, 1}
